@@ -2,11 +2,12 @@
 # usage: seed_check_wt.sh <patch.diff> <prop> [<prop>...]   like seed_check.sh, but on a scratch worktree (/tmp/seed/sc) through
 # VERIF_REPO, so that /repo is not touched (use while something else reads /repo)
 P=$1; shift
-W=/tmp/seed/sc
+W=${SEED_WT:-/tmp/seed/sc}
+T=$(basename $W)
 [ -d $W ] || git -C /repo worktree add -q --detach $W HEAD || exit 2
 git -C $W checkout -q --detach $(git -C /repo rev-parse HEAD) 2>/dev/null
 git -C $W diff --quiet || git -C $W checkout -- .
 git -C $W apply "$P" || exit 2
-export VERIF_REPO=$W VERIF_BUILD=/var/tmp/vk-build-sc VERIF_EVIDENCE_DIR=/var/tmp/vk-ev-sc
+export VERIF_REPO=$W VERIF_BUILD=/var/tmp/vk-build-$T VERIF_EVIDENCE_DIR=/var/tmp/vk-ev-$T
 for p in "$@"; do (cd /verif && ./check $p --tier quick 2>&1 | grep -E "^(OK|VIOLATION|UNDECIDED|FAILED-OBLIGATION|KNOWN)" | cut -c1-300; echo "rc($p)=$?"); done
 git -C $W checkout -- .
